@@ -11,6 +11,9 @@ VROOT = os.path.dirname(os.path.dirname(os.path.abspath(__file__)))
 ALL = sorted(os.path.basename(p)[:-3].upper() for p in glob.glob(f'{VROOT}/vf/checks/c*.py'))
 jobs = []
 for src in sys.argv[1:]:
+    if os.path.exists(os.path.join(src, 'patch.diff')):      # a kept change (benign/<name>/): re-run it on the current tree
+        jobs.append((os.path.basename(src.rstrip('/')), os.path.join(src, 'patch.diff'), os.path.join(src, 'note.txt')))
+        continue
     for p in sorted(glob.glob(os.path.join(src, 'patch_*.diff'))):
         v = os.path.basename(p)[6:-5]
         jobs.append((os.path.basename(src.rstrip('/')) + '-' + v, p, os.path.join(src, f'note_{v}.txt')))
@@ -40,9 +43,10 @@ def one(job):
         shutil.rmtree(wt + '-ev', ignore_errors=True)
     d = f'{VROOT}/benign/{name}'
     os.makedirs(d, exist_ok=True)
-    shutil.copy(patch, f'{d}/patch.diff')
-    if os.path.exists(note):
-        shutil.copy(note, f'{d}/note.txt')
+    if os.path.abspath(patch) != os.path.abspath(f'{d}/patch.diff'):
+        shutil.copy(patch, f'{d}/patch.diff')
+        if os.path.exists(note):
+            shutil.copy(note, f'{d}/note.txt')
     json.dump({'repo_head': subprocess.run(['git', '-C', '/repo', 'rev-parse', '--short', 'HEAD'], capture_output=True, text=True).stdout.strip(),
                'alarms': out}, open(f'{d}/result.json', 'w'), indent=1)
     return name, out
